@@ -65,7 +65,7 @@ def shapes(tier, seed):
         for gs in (0, 1):
             out.append({"kind": "fold", "N": N, "gseed": seed * 10 + gs, "fixed": {}})
     _, order = _orbits(4)
-    k = 4 if tier == "thorough" else 7
+    k = 6 if tier == "thorough" else 7      # thorough: all 4096 patterns of N=4 as 64 sub-shapes of 64 paths
     rng = np.random.default_rng(seed)
     combos = list(itertools.product((False, True), repeat=k))
     if tier == "quick":
